@@ -85,6 +85,14 @@ def _interp(ctx, desc):
         except Exception as e:  # noqa: BLE001
             ctx.violation(ctx.exc_signature(e, f"interp.{ex}->{ip}"), f"{type(e).__name__}: {str(e)[:100]}", desc)
             return
+        if ex in ("expdecay", "expratedecay"):
+            # both extrapolated slots lie on ONE decay curve: decaying the older one for a full step gives the newer one
+            full = ifn(a, b, torch.full(shape, dt, dtype=torch.float64), dt, **kw)
+            ctx.count("decay_curve_laws")
+            if not torch.allclose(full, b, rtol=1e-10, atol=1e-9):
+                ctx.violation(f"interp.decay_curve.{ex}", "extrapolated older and newer slots are not on one decay curve", desc,
+                              {"frac": fr})
+                return
         cond = 1.0
         if linear:
             cond = 1.0 / min(fr, 1 - fr)
